@@ -4,6 +4,8 @@ import json
 from .. import config
 from ..ref import b64
 from ..alphabet import V
+from .. import alphabet as A
+from ..ref import jwk as rjwk
 from .common import Outcome, Part, viol, call
 
 LEVEL = "exploration"
@@ -219,7 +221,80 @@ def h_json(ctx):
     return Outcome("json-ok" if not vs else "json-bad", vs, nontrivial=("json", repr(obj), seq))
 
 
+def long_lengths():
+    out = set()
+    for k in range(8, 21):
+        out |= {2 ** k - 1, 2 ** k, 2 ** k + 1, 2 ** k + 2}
+    # quanta of line-oriented and block-wise codecs (57 octets in = 76 characters out; 3 in = 4 out; 1 KiB multiples of both)
+    for q in (57, 76, 3 * 1024, 4 * 1024, 57 * 1024, 76 * 1024, 1000, 100000):
+        for m in (1, 2, 3, 5, 8, 13):
+            if q * m <= 1_300_000:
+                out |= {q * m - 1, q * m, q * m + 1}
+    return sorted(out)
+
+
+def h_long(ctx):
+    """Long inputs: lengths around powers of two and around the quanta of line- and block-oriented base64 codecs, up to 1.3 MB."""
+    u = _util()
+    n = ctx.choose("length", long_lengths())
+    cls = ctx.choose("content", ["period251", "ff", "zero"])
+    raw = {"period251": bytes(i % 251 for i in range(n)), "ff": b"\xff" * n, "zero": b"\0" * n}[cls] if n < 300000 or cls == "period251" else None
+    if raw is None:
+        return Outcome("n/a", [], nontrivial=None)
+    vs = []
+    r = call(u.urlsafe_b64encode, raw)
+    if not r.ok:
+        return Outcome("encode-raises", [viol("encode raises (long input)", f"{n} octets: {r.etype}")], nontrivial=("long", n, cls))
+    e = r.value
+    want = b64.enc(raw).encode()
+    if e != want:
+        bad = next((i for i in range(min(len(e), len(want))) if e[i] != want[i]), min(len(e), len(want)))
+        vs.append(viol("encode differs from RFC 4648 (long input)", f"{n} octets ({cls}): {len(e)} characters, reference {len(want)}; first difference at {bad}: {e[bad:bad + 8]!r}"))
+    if any(c not in ALPHA for c in set(e)):
+        vs.append(viol("encode emits non-alphabet (long input)", f"{n} octets ({cls}): {sorted(set(e) - ALPHA)}"))
+    d = call(u.urlsafe_b64decode, e)
+    if not d.ok or d.value != raw:
+        vs.append(viol("decode(encode(x)) != x (long input)", f"{n} octets ({cls}): {d.etype}"))
+    d2 = call(u.urlsafe_b64decode, want)
+    if not d2.ok or d2.value != raw:
+        vs.append(viol("a canonical long encoding is not decoded to its octets", f"{n} octets ({cls}): {d2.etype}"))
+    return Outcome("long-ok" if not vs else "long-bad", vs, nontrivial=("long", n, cls))
+
+
+RSA_FIXTURES = A.RSA_NAMES + ["rsa_1024_short_d", "rsa_1024_short_dp", "rsa_1024_short_dq", "rsa_1024_short_qi"]
+
+
+def h_jwk_members(ctx):
+    """Integer members of exported JWKs: minimal unsigned big-endian for RSA (keys whose d, dp, dq or qi is shorter than nominal
+    included), imported from PEM / DER / the native object / a JWK, exported private and public."""
+    from joserfc.jwk import RSAKey
+    name = ctx.choose("key", RSA_FIXTURES)
+    route = ctx.choose("import_from", ["pem", "der", "native", "dict"])
+    private = ctx.choose("export", ["private", "public"]) == "private"
+    ref = A.rsa_jwk(name)
+    key = A.jkey(ref, route)
+    r = call(key.as_dict, private=private)
+    vs = []
+    if not r.ok:
+        return Outcome("export-raises", [viol("exporting an RSA key raises", f"{name} from {route}: {r.exc!r}")], nontrivial=(name, route, private))
+    want = ref if private else rjwk.public_of(ref)
+    for m in ("n", "e", "d", "p", "q", "dp", "dq", "qi"):
+        if m in want or m in r.value:
+            got = r.value.get(m)
+            if got != want.get(m):
+                raw = b64.dec(got) if isinstance(got, str) else b""
+                why = "not the minimal encoding (leading zero octet)" if raw[:1] == b"\0" and raw.lstrip(b"\0") == b64.dec(want.get(m, "")) else "not the key's value"
+                vs.append(viol(f"exported RSA JWK member is {why} [{m}]", f"{name} from {route}: {m}={str(got)[:24]}... ({len(raw)} octets), reference {len(b64.dec(want.get(m, '')))} octets"))
+    if r.ok and private:
+        back = call(lambda: RSAKey.import_key(dict(r.value)).as_dict(private=True))
+        if not back.ok or {k: v for k, v in back.value.items() if k != "kid"} != {k: v for k, v in r.value.items() if k != "kid"}:
+            vs.append(viol("an exported RSA JWK does not re-import to the same members", f"{name} from {route}: {back.exc!r}"))
+    return Outcome("members-ok" if not vs else "members-bad", vs, nontrivial=(name, route, private))
+
+
 PARTS = [
+    Part("b64-long-inputs", h_long, split_depth=1),
+    Part("jwk-integer-members", h_jwk_members, split_depth=1),
     Part("b64-encode", h_encode, split_depth=2),
     Part("b64-decode-all", h_decode_all, split_depth=2),
     Part("b64-decode-faults", h_decode_faults, split_depth=2),
@@ -228,5 +303,5 @@ PARTS = [
     Part("json-header", h_json, split_depth=1),
 ]
 for _p in PARTS:
-    if _p.name in ("int-minimal", "json-header", "int-fixed-width"):
+    if _p.name in ("int-minimal", "json-header", "int-fixed-width", "b64-long-inputs", "jwk-integer-members"):
         _p.single_bucket_ok = True
